@@ -359,6 +359,8 @@ func runC05(c *eng.Ctx) {
 
 	// ---- R05.8 recovery reconciles the log with its index
 	c.Rule("R05.8", "K2")
+	ruleEpochRecoveryAssignsEveryMissingEpoch(c)
+	ruleRebuildIndexAcceptsGaps(c)
 	if fn := c.Fn(cl + "(*segment).setupIndex"); fn != nil {
 		// An append writes the log, then the index. A crash in between leaves log bytes the index does not describe: the write
 		// position comes from the file size, the next offset from the index, so the next append re-uses the orphan's offset
